@@ -223,8 +223,8 @@ func scenarios(thorough bool) []*scenario {
 		}
 	}
 	return []*scenario{
-		{name: "namespace", pre: []string{"INBOX"}, universe: allNames, alphabet: alphabetNamespace(true), depth: 5},
-		{name: "messages-from-empty", pre: []string{"INBOX", "A"}, universe: allNames[:3], alphabet: alphabetMessages(false), depth: 5},
+		{name: "namespace", pre: []string{"INBOX"}, universe: allNames, alphabet: alphabetNamespace(true), depth: 6},
+		{name: "messages-from-empty", pre: []string{"INBOX", "A"}, universe: allNames[:3], alphabet: alphabetMessages(false), depth: 6},
 		{name: "messages-two-sessions-on-INBOX(2 msgs), full alphabet", pre: []string{"INBOX", "A"}, universe: allNames[:3], seed: seedMsgs, alphabet: alphabetMessages(true), depth: 3},
 		{name: "messages-two-sessions-on-INBOX(2 msgs)", pre: []string{"INBOX", "A"}, universe: allNames[:3], seed: seedMsgs, alphabet: alphabetMessages(false), depth: 4},
 		{name: "messages-two-sessions-on-INBOX(3 msgs)", pre: []string{"INBOX", "A"}, universe: allNames[:3], seed: seed3, alphabet: alphabetMessages(false), depth: 4},
